@@ -15,11 +15,11 @@ import time
 from harness.sim import Sim
 from harness import monitors
 
-PROPERTIES = ["C02", "C19"]
+PROPERTIES = ["C02", "C19", "C18", "C16"]
 ORDER = 30
 
 
-def scenario(repo, seed, n_first=1, stale_first=True, replicate_first=True, batch=True):
+def scenario(repo, seed, n_first=1, stale_first=True, replicate_first=True, batch=True, mid_election=False):
     sim = Sim(repo, ["a", "b", "c"], seed=seed, conf={"appendEntriesUseBatch": batch})
     sim.connect_all()
     L1 = sim.elect()
@@ -42,10 +42,17 @@ def scenario(repo, seed, n_first=1, stale_first=True, replicate_first=True, batc
     # 2. leadership moves to P: L1 is cut off from P, F votes for P
     sim.cut(L1, P)
     sim.notice(P, L1)
+    term0 = sim.objs[F].raftCurrentTerm
     for _ in range(200):
         sim.tick(P, 0.0625)
         while sim.deliver(P, F):
             pass
+        if mid_election and held and sim.objs[F].raftCurrentTerm > term0:
+            # the old leader's reply arrives after F has adopted the candidate's term (vote request) and before it
+            # hears from the new leader: the position is filed while F is already in the newer term
+            for m in held:
+                sim.inject(L1, F, m)
+            held = []
         while sim.deliver(F, P):
             pass
         if sim.objs[P]._isLeader():
@@ -185,6 +192,75 @@ def scenario_requester_becomes_leader(repo, seed, n_first=2, n_local=1, batch=Tr
     return sim, viols, None if waiting else "the follower was not waiting for any position"
 
 
+def scenario_snapshot_over_waiting(repo, seed, extra=0, observer=False):
+    """A node forwards a command, is told its log position i by the leader (it now waits for i to commit), loses the
+    entries, and is caught up by a SNAPSHOT whose last index is i + extra (extra = 0: exactly i).  Its callback must be
+    answered (once): the node never applies position i itself."""
+    voters = ["a", "b", "c"]
+    sim = Sim(repo, voters, observers=(["o"] if observer else []), seed=seed,
+              conf={"logCompactionMinEntries": 10 ** 6, "logCompactionMinTime": 10 ** 6})
+    sim.connect_all()
+    L = sim.elect(among=voters)
+    if L is None:
+        return sim, [], "no leader"
+    sim.run(6)
+    others = [x for x in voters if x != L]
+    F = "o" if observer else others[0]
+    P = others[1]
+    for j in ([v for v in voters if v != L] if observer else [P]):
+        if j != F:
+            pass
+    peers = [x for x in (voters + (["o"] if observer else [])) if x != F]
+    for x in peers:
+        sim.disconnect(F, x)
+    for k in range(5):
+        sim.submit(L, "m%d" % k, with_cb=False)
+    among = [x for x in peers]
+    sim.run(6, among=among)
+    sim.connect(F, L)
+    cid = sim.submit(F, "fwd")
+    sim.tick(F, 0.0)
+    while sim.deliver(F, L):
+        pass
+    sim.tick(L, 0.0)                      # L appends it at index i and answers with i
+    m = None
+    while True:
+        x = sim.deliver(L, F)
+        if x is None:
+            break
+        if x.get("type") == "apply_command_response":
+            m = x
+            break
+    sim.cut(F, L)                         # the entries behind it are lost with the connection
+    for k in range(extra):
+        sim.submit(L, "x%d" % k, with_cb=False)
+    sim.run(6, among=among)
+    idx = (m or {}).get("log_idx")
+    sim.compact(L)
+    sim.run(4, among=among)
+    snap_last = sim.log_of(L)[1][0] if len(sim.log_of(L)) > 1 else None
+    sim.connect(F, L)
+    for _ in range(int(30 / 0.0625)):
+        sim.run(1)
+        if [c for c in sim.callbacks if c[1] == cid] and sim.objs[F].raftLastApplied == sim.objs[L].raftLastApplied:
+            break
+    cbs = [(r, e) for (n, c, r, e) in sim.callbacks if c == cid]
+    viols = monitors.callbacks_contract(sim) + monitors.errors(sim)
+    caught_up = sim.objs[F].raftLastApplied == sim.objs[L].raftLastApplied
+    if caught_up and len(cbs) != 1:
+        viols.append({"signature": "callback:forwarded-command-never-answered" if not cbs else "callback:fired-twice",
+                      "what": "%s %s forwarded a command, was told position %r, and caught up by a snapshot ending at %r: "
+                              "its callback fired %d times %s (applied %d everywhere)"
+                              % ("read-only node" if observer else "follower", F, idx, snap_last, len(cbs), cbs,
+                                 sim.objs[L].raftLastApplied)})
+    note = None
+    if m is None or snap_last is None or idx is None or not caught_up:
+        note = "schedule did not reach the snapshot catch-up over a waiting position"
+    elif extra == 0 and snap_last != idx:
+        note = "snapshot does not end at the waiting position (%r vs %r)" % (snap_last, idx)
+    return sim, viols, note
+
+
 def run(ctx):
     t0 = time.time()
     cases, viols, samples, notes = 0, [], [], []
@@ -195,6 +271,8 @@ def run(ctx):
             for replicate_first in (True, False):
                 for batch in (True, False):
                     plans.append((n_first, stale_first, replicate_first, batch))
+                    if stale_first:
+                        plans.append((n_first, stale_first, replicate_first, batch, True))
     seeds = [ctx.seed * 100 + i for i in range(ctx.scale(2, 12))]
     seen = set()
     for plan in plans:
@@ -236,12 +314,25 @@ def run(ctx):
                             x["replay"] = {"component": "corr.c02_forwarding", "reqlead": [n_first, n_local, batch, replies],
                                            "seed": ctx.seed}
                         viols.extend(v)
+    if not viols:
+        for observer in (False, True):
+            for extra in (0, 1, 3):
+                sim, v, note = scenario_snapshot_over_waiting(ctx.repo, ctx.seed, extra, observer)
+                cases += 1
+                seen.add((("snapwait", extra, observer), note is None))
+                if note:
+                    notes.append(note)
+                for x in v:
+                    x["replay"] = {"component": "corr.c02_forwarding", "snapwait": [extra, observer], "seed": ctx.seed}
+                viols.extend(v)
     reached = len([1 for (p, ok) in seen if ok])
     r = {"name": "corr.c02_forwarding", "cases": cases, "distinct": len(seen), "violations": viols[:5],
          "coverage": {"plans": len(plans), "plans_reaching_the_point": reached, "notes": sorted(set(notes))[:5]},
          "samples": samples, "wall_s": round(time.time() - t0, 2)}
     if reached == 0:
         r["inconclusive"] = "no plan reached the stale-response point"
+    elif not any(ok for (p, ok) in seen if isinstance(p, tuple) and p and p[0] == "snapwait" and p[1] == 0):
+        r["inconclusive"] = "no snapshot ending exactly at a waiting position"
     elif not any(p[0] == "reqlead" and ok for (p, ok) in seen if isinstance(p, tuple) and p and p[0] == "reqlead"):
         r["inconclusive"] = "requester never became leader while waiting for acknowledged positions"
     return r
@@ -249,6 +340,9 @@ def run(ctx):
 
 def replay(ctx, violation):
     rp = violation.get("replay", {})
+    if "snapwait" in rp:
+        sim, v, note = scenario_snapshot_over_waiting(ctx.repo, rp.get("seed", 1), *rp["snapwait"])
+        return {"violated": bool(v), "violations": v[:5], "note": note}
     if "reqlead" in rp:
         sim, v, note = scenario_requester_becomes_leader(ctx.repo, rp.get("seed", 1), *rp["reqlead"])
         return {"violated": bool(v), "violations": v[:5], "note": note}
